@@ -88,6 +88,32 @@ JOB_ROUTES = {
     "async_generator_job": "(async function*(){ await null; run(); yield 1; })().next();",
 }
 
+# loops of one activation that suspend in every iteration (the activation's frame is saved and restored around each
+# await / yield): the iteration count belongs to the activation, so the limit must still stop them — in the job that
+# runs the iteration which exceeds it
+SUSPENDING_LOOPS = {
+    "await_in_while": "async function run() { var i = 0; while (i < N) { __body++; await null; i++; } print('LOOP-DONE'); }",
+    "await_in_do_while": "async function run() { var i = 0; do { __body++; await i; i++; } while (i < N); print('LOOP-DONE'); }",
+    "await_in_for_update": "async function run() { for (var i = 0; i < N; await null, i++) { __body++; } print('LOOP-DONE'); }",
+    "await_in_try_in_loop": "async function run() { for (var i = 0; i < N; i++) { try { __body++; await null; } finally { } } print('LOOP-DONE'); }",
+    "for_await_of_async_generator": "async function* src() { var i = 0; while (i < N) { yield i++; } } async function run() { for await (var x of src()) { __body++; } print('LOOP-DONE'); }",
+    "for_await_of_sync_iterable": "function* src() { var i = 0; while (i < N) { yield i++; } } async function run() { for await (var x of src()) { __body++; } print('LOOP-DONE'); }",
+    "yield_in_async_generator_loop": "async function* g() { var i = 0; do { __body++; yield i++; } while (i < N); } async function run() { var it = g(); for (;;) { var r = await it.next(); if (r.done) break; } print('LOOP-DONE'); }",
+    "await_in_arrow": "var run = async () => { var i = 0; while (i < N) { __body++; await null; i++; } print('LOOP-DONE'); };",
+}
+
+WRAP_SUSPENDING = """var __body = 0;
+%(construct)s
+run().then(function () { print('THEN'); }, function () { print('REJECTED'); });
+print('END');
+"""
+
+
+def suspending_program(form, n):
+    import re
+    return WRAP_SUSPENDING % {"construct": re.sub(r"\bN\b", str(n), SUSPENDING_LOOPS[form])}
+
+
 WRAP = """var __body = 0;
 function run() { %(construct)s }
 function level2() { try { %(route)s print('AFTER-ROUTE'); } catch (e) { print('C1'); } finally { print('F1'); } print('AFTER-L2'); }
